@@ -44,6 +44,16 @@ Fixpoint split_lines_aux (cur_rev : bytes) (s : bytes) : list bytes * bytes :=
   end.
 Definition split_lines (s : bytes) : list bytes * bytes := split_lines_aux [] s.
 
+(* first occurrence of [p] in [s] *)
+Fixpoint find_sub (p s : bytes) : option nat :=
+  match strip_prefix p s with
+  | Some _ => Some O
+  | None => match s with
+            | [] => None
+            | _ :: s' => match find_sub p s' with Some k => Some (S k) | None => None end
+            end
+  end.
+
 (* str::trim_end for ASCII white space, trim_end_matches('\n') *)
 Definition is_ws (c : N) : bool :=
   N.eqb c 32 || N.eqb c 9 || N.eqb c 10 || N.eqb c 11 || N.eqb c 12 || N.eqb c 13.
@@ -55,6 +65,26 @@ Fixpoint drop_while_rev (p : N -> bool) (r : bytes) : bytes :=
 Definition trim_end (s : bytes) : bytes := rev (drop_while_rev is_ws (rev s)).
 Definition strip_nl (s : bytes) : bytes := rev (drop_while_rev (N.eqb newline) (rev s)).
 Definition clean_line (s : bytes) : bytes := trim_end s ++ [newline].
+
+(* A record written while the script's own output stood in mid-line (printf
+   'checking y... '; redo-ifchange y) comes after that text on the same physical
+   line.  The text is shown as a line of its own and the record is taken for
+   what it is (fix F64; before, the record was not seen and the nested target's
+   log was never shown).  Like the pretty printer, only the first "@@REDO:" of
+   a line is looked at. *)
+Definition resplit1 (l : bytes) : list bytes :=
+  match find_sub b_prefix l with
+  | Some (S k) =>
+      match parse (strip_nl (skipn (S k) l)) with
+      | Some _ => [firstn (S k) l ++ [newline]; skipn (S k) l]
+      | None => [l]
+      end
+  | _ => [l]
+  end.
+Definition resplit (ls : list bytes) : list bytes := flat_map resplit1 ls.
+(* the lines of a complete log as the viewer handles them, and its unterminated end *)
+Definition log_lines (content : bytes) : list bytes * bytes :=
+  let '(ls, rest) := split_lines content in (resplit ls, rest).
 
 Definition k_do : bytes := [100; 111].
 Definition k_done : bytes := [100; 111; 110; 101].
@@ -149,7 +179,7 @@ Section Catlog.
           | KUnknown => {| r_status := SExit24; r_written := 0; r_evs := []; r_already := al |}
           | KNoLog => {| r_status := SOk; r_written := 0; r_evs := []; r_already := al |}
           | KLog content =>
-              let '(ls, rest) := split_lines content in
+              let '(ls, rest) := log_lines content in
               loop (catlog f) t (parent_dir t) rest ls al 0 0
           end
     end.
